@@ -40,8 +40,11 @@ REWRITES = ['case', 'blanks', 'indent', 'breaks', 'amp', 'dollar',
 
 @st.composite
 def fmt_case(draw, tier='quick'):
-    which = draw(st.sampled_from(['level0', 'hier', 'lattice', 'like', 'tr']))
-    if which == 'level0':
+    which = draw(st.sampled_from(['level0', 'hier', 'lattice', 'like', 'tr',
+                                  'fillprog']))
+    if which == 'fillprog':
+        case = draw(progression_lattice_case(tier))
+    elif which == 'level0':
         case = draw(c01.level0_case(tier))
     elif which == 'hier':
         case = draw(gen_hier.hier_case(tier, {'lattice': True}))
@@ -57,7 +60,7 @@ def fmt_case(draw, tier='quick'):
     labels = set(case['labels']) | {'gen:' + which}
     if which != 'level0' and draw(st.booleans()) and \
             all(c.get('like') is None for c in deck['cells']):
-        to_data_imp(deck)
+        to_data_imp(deck, draw(st.integers(0, 3)))
         labels.add('imp:data')
     spec = {k: draw(st.booleans()) for k in REWRITES}
     spec['num'] = draw(st.sampled_from([None, 'python', 'python', 'fortran']))
@@ -68,14 +71,66 @@ def fmt_case(draw, tier='quick'):
             'labels': sorted(labels), 'tier': tier}
 
 
-def to_data_imp(deck):
+def to_data_imp(deck, pattern=0):
+    """Move the importances to an IMP:N data card; the non-zero values are
+    replaced by a progression (their magnitude does not matter to the
+    conversion) so that nI / nM shorthand becomes applicable."""
     vals = []
+    seqs = [[1.0] * 64, [float(1 + q) for q in range(64)],
+            [float(2 ** (q % 5)) for q in range(64)],
+            [1.0, 1.0, 2.0, 3.0, 4.0, 4.0, 8.0, 16.0] * 8]
+    seq = seqs[pattern % len(seqs)]
+    k = 0
     for c in deck['cells']:
         imp = c.get('imp') or {'n': 1}
-        vals.append(float(imp.get('n', 1)))
+        v = float(imp.get('n', 1))
+        if v != 0:
+            v = seq[k % len(seq)]
+            k += 1
+        vals.append(v)
         c['imp'] = None
         c.pop('imp_groups', None)
     deck['imp_cards'] = {'n': {'values': vals}}
+
+
+@st.composite
+def progression_lattice_case(draw, tier):
+    """A 1-D or 2-D lattice whose FILL array lists consecutively numbered
+    universes, so that the array can be written with nI shorthand."""
+    b = gen_hier.Builder(draw, tier, {'lattice': False})
+    world = b.add_surf('so', [5.0])
+    nx = draw(st.integers(3, 5))
+    ny = draw(st.integers(1, 2))
+    u0 = 10
+    univs = []
+    for q in range(nx):
+        u = u0 + q
+        sid = b.add_surf('so', [0.15 + 0.05 * q])
+        m1, r1 = b.material()
+        m2, r2 = b.material()
+        b.deck['cells'].append(md.cell(b.new_cid(), m1, r1, md.S(-sid),
+                                       imp={'n': 1}, u=u))
+        b.deck['cells'].append(md.cell(b.new_cid(), m2, r2, md.S(sid),
+                                       imp={'n': 1}, u=u))
+        univs.append(u)
+    p1 = b.add_surf('px', [0.0])
+    p2 = b.add_surf('px', [1.0])
+    p3 = b.add_surf('py', [0.0])
+    p4 = b.add_surf('py', [1.0])
+    arr = []
+    for j in range(ny):
+        arr += univs if j % 2 == 0 else univs[::-1]
+    b.deck['cells'].append(md.cell(
+        b.new_cid(), 0, None, md.AND(md.S(-p2), md.S(p1), md.S(-p4), md.S(p3)),
+        imp={'n': 1}, u=5, lat=1,
+        fill={'u': None, 'ranges': [[0, nx - 1], [0, ny - 1], [0, 0]],
+              'univs': arr, 'tr': None}))
+    b.deck['cells'].append(md.cell(b.new_cid(), 0, None, md.S(-world),
+                                   imp={'n': 1}, fill={'u': 5, 'tr': None}))
+    b.deck['cells'].append(md.cell(b.new_cid(), 0, None, md.S(world),
+                                   imp={'n': 0}))
+    b.labels.add('fill-progression')
+    return {'deck': b.deck, 'labels': sorted(b.labels), 'tier': tier}
 
 
 def strategy(tier):
@@ -98,19 +153,21 @@ def variant_deck(case):
         k = bits[0]
         upper = bool(bits[1] % 2)
         for p, card in (deck.get('imp_cards') or {}).items():
-            toks = [mr.fnum(v) for v in card['values']]
-            new, ch = layouts.compress_runs(toks, k, upper)
-            if ch:
+            new, used = layouts.compress_data(card['values'], bits,
+                                              upper=upper)
+            if used:
                 card['tokens'] = new
-                applied.add('shorthand:imp-nR')
+                applied.update('shorthand:imp-' + u for u in used)
         for c in deck['cells']:
             f = c.get('fill')
             if f and f.get('univs') is not None:
-                toks = [str(u) for u in f['univs']]
-                new, ch = layouts.compress_runs(toks, k + 1, upper)
-                if ch:
+                new, used = layouts.compress_data(
+                    f['univs'], bits[1:] + bits[:1], fmt=lambda v: str(int(v)),
+                    upper=upper)
+                used.discard('nM')
+                if used and 'nM' not in ' '.join(new).lower():
                     f['univs_spelled'] = new
-                    applied.add('shorthand:fill-nR')
+                    applied.update('shorthand:fill-' + u for u in used)
             lk = c.get('like')
             if lk and lk['but'].get('fill') and \
                     lk['but']['fill'].get('univs') is not None:
